@@ -699,7 +699,7 @@ func TestVerif_C06(t *testing.T) {
 			states++
 		}
 	}
-	r.Note("directed: %d sequences of length %d..%d run", len(dir), 9, 14)
+	r.Note("directed: %d sequences of length 9..14 run", len(dir))
 	r.State(states)
 }
 
@@ -717,4 +717,18 @@ var c06Directed = []string{
 	"rarCsaCsC",      // a reader of the database file only (slot 0) blocks everything, then leaves
 	"arCarsCFaC",     // a full snapshot becomes due while armed
 	"arCasFarCasC",   // full snapshot between two append-resume cycles
+	// a busy attempt AFTER an untruncated one in the same WAL generation, blocked by a
+	// different, later reader: it moves frames beyond the resume point into the database
+	// but its segment is dropped - the resume point must stay where it was
+	"arCarsbCsC",     // the write between the two readers' marks touches a page nothing later rewrites
+	"arCbrsaCsC",     // page sets swapped
+	"brCarsbCsC",     // the later write rewrites the first page, not the lost one
+	"WrCarsbCsC",     // page-heavy first generation
+	"arCWrsbCsC",     // several frames between the marks
+	"arCarsWCsC",     // page-heavy write behind the second mark
+	"arCabrsbCsC",    // two transactions between the marks
+	"arCarsbCaCsC",   // two busy attempts in a row
+	"arCarbCssC",     // both readers still open: the first one is the blocker (resume point unchanged anyway)
+	"arCarsbCrsaCsC", // a third reader takes over: busy twice, at two different marks
+	"arCarsbCsaC",    // ... and one more write before the successful attempt
 }
